@@ -36,6 +36,10 @@ def run(ctx):
     from . import p04
     before, nv = len(ctx.instances), len(ctx.violations)
     p04.rule_k7(ctx, F)
+    # ... and the same hash: every value xor-ed into the hash is a key of the position, the importer folds each square once and takes
+    # the state key only when rights and en-passant file are final (a played and a re-imported game then hash alike)
+    p04.rule_k5(ctx, F)
+    p04.rule_k6(ctx, F)
     for i in ctx.instances[before:]:
         i["rule"] = "C11.T6(" + i["rule"] + ")"
     for v in ctx.violations[nv:]:
